@@ -71,12 +71,22 @@ def run(ctx):
            S.push_fan("fan-first-send-before-peer-tcp", "tcp", 2, n=100, first_send_before_peer=True)]
     if thorough:
         scs += [S.push_fan("fan-even-inproc", "inproc", 3, n=600), S.push_fan("fan-stalled-ipc", "ipc", 4, stalled=(0, 2), n=500, size=60000)]
+    # a second endpoint that accepts the TCP connection and never speaks ZMTP: not a connected peer
+    silent = {"name": "fan-silent-endpoint-tcp", "deadline_ms": 30000,
+              "sockets": [{"name": "push", "type": "PUSH", "opts": [S.i32(S.SNDTIMEO, 3000)]}, {"name": "pull0", "type": "PULL", "opts": []}],
+              "tasks": [{"name": "r", "ops": [{"op": "bind", "sock": "pull0", "ep": "tcp://127.0.0.1:0", "save": "ep"}, {"op": "barrier", "name": "go", "parties": 3},
+                                             {"op": "recv_n", "sock": "pull0", "n": 201, "timeout_ms": 2500}]},
+                        {"name": "l", "ops": [{"op": "raw_listen", "raw": "L", "save": "lep"}, {"op": "barrier", "name": "go", "parties": 3},
+                                             {"op": "raw_accept_loop", "listener": "L", "n": 3, "mode": "hold", "timeout_ms": 4000}]},
+                        {"name": "p", "ops": [{"op": "barrier", "name": "go", "parties": 3}, {"op": "connect", "sock": "push", "ep": "$ep"}, {"op": "connect", "sock": "push", "ep": "$lep"},
+                                             {"op": "sleep", "ms": 300}, {"op": "send_n", "sock": "push", "prefix": "a", "n": 200, "sizes": [200], "pace_us": 2000, "max_errs": 3}]}]}
+    scs.append(silent)
     res = S.run_scenarios(ctx, scs, "c13", timeout=1500)
     runs = []
     for sc, r0 in zip(scs, res):
         pulls = [s["name"] for s in sc["sockets"] if s["type"] == "PULL"]
         ev = S.history_to_delivery_trace(r0, ["push"], pulls)
-        if "stalled" in sc["name"] or "leave" in sc["name"]:
+        if "stalled" in sc["name"] or "leave" in sc["name"] or "silent" in sc["name"]:
             ev = [e for e in ev if e["e"] != "quiesce"]       # messages parked at a stalled / departed peer are not lost
         rp = {"kind": "recorded-trace", "scenario": sc, "hung": r0["hung"], "panics": r0["panics"]}
         runs.append((sc["name"], ev, rp))
@@ -95,6 +105,11 @@ def run(ctx):
             if worst > 4000 or r0["hung"]:
                 ctx.violation("C13:waits-on-full-peer", "%s: send() waited %d ms on a peer whose queue is full while other peers had room%s" % (
                     sc["name"], worst, "; hung: %s" % r0["hung"] if r0["hung"] else ""), rp)
+        if "silent-endpoint" in sc["name"]:
+            if sent_ok and sum(got.values()) < sent_ok:
+                ctx.violation("C13:handed-to-unconnected-peer", "%s: %d messages were accepted, the only peer that completed the ZMTP handshake received %d: the rest was handed to a connection whose handshake never completed" % (
+                    sc["name"], sent_ok, sum(got.values())), rp)
+            continue
         if "first-send-before-peer" in sc["name"]:
             if sent_ok < 100 or sum(got.values()) < sent_ok:
                 ctx.violation("C13:first-peer-not-noticed", "%s: a send that was waiting for a first peer: %d sent ok, received %s" % (sc["name"], sent_ok, got), rp)
